@@ -20,7 +20,8 @@
 //!                                 has missed its look-up too, then both insert (kind rvA: the first
 //!                                 arrival inserts first, rvB: the second one); a lone worker leaves after
 //!                                 a timeout, so a schedule that does not reproduce cannot hang the engine
-//!           | req:<order>         C14: order f (files as listed) or r (reversed); the tree is built as main_loop
+//!           | req:<order>         C14: order f (files as listed), r (reversed) or s<k> (as listed; file k lacks its parent clause
+//!                                 until a didSave between the two rounds brings the full text); the tree is built as main_loop
 //!                                 does (chunk 15000, 7 workers); every request kind on every file, each on
 //!                                 its own thread with a 10 s deadline, two rounds
 //! result (seq / par / sched):  entries joined by `;`, one per class and per member, in case order
@@ -315,11 +316,43 @@ fn requests(ws: &Ws, order: &str) -> String {
     };
     let mut files: Vec<FileSpec> = ws.files.clone();
     if order == "r" { files.reverse(); }
+    // order s<k>: file k is on disk WITHOUT its parent clause during start-up and the first round; before the second
+    // round its full text is written and didSave is notified (a save is how a parent cycle comes into a running server)
+    let save_k: Option<usize> = order.strip_prefix('s').and_then(|x| x.parse().ok());
+    if let Some(f) = save_k.and_then(|k| ws.files.get(k)) {
+        if let Some(p) = &f.par {
+            let mut lines: Vec<String> = f.text.split_inclusive('\n').map(|l| l.to_string()).collect();
+            if let Some(line) = lines.get_mut(p.line) {
+                let chars: Vec<char> = line.chars().collect();
+                let open = chars[..p.col.min(chars.len())].iter().rposition(|c| *c == '(');
+                let close = chars.iter().skip(p.col).position(|c| *c == ')').map(|i| i + p.col);
+                if let (Some(o), Some(c)) = (open, close) {
+                    let o = if o > 0 && chars[o - 1] == ' ' { o - 1 } else { o };
+                    *line = chars[..o].iter().chain(chars[c + 1..].iter()).collect();
+                }
+            }
+            let _ = std::fs::write(ws.dir.0.join(format!("{}.god", f.stem)), lines.concat().as_bytes());
+        }
+    }
     let mut rounds: Vec<String> = Vec::new();
     let mut hung = false;
     let mut first = true;
     for _round in 0..2 {
         let mut outs: Vec<String> = Vec::new();
+        if _round == 1 {
+            if let Some(f) = save_k.and_then(|k| ws.files.get(k)) {
+                let _ = std::fs::write(ws.dir.0.join(format!("{}.god", f.stem)), f.text.as_bytes());
+                let mut pm = pm0.clone();
+                let u = ws.uri(&f.stem);
+                let r = timed(Box::new(move || {
+                    let pool = ThreadPool::new(2, Box::new(SilentLogger));
+                    let ok = pm.notify_document_saved(&u, &pool).is_ok();
+                    drop(pool);
+                    ok
+                }));
+                if r == "HANG" || r == "PANIC" { hung = r == "HANG"; outs.push(format!("save.{}={}", f.stem, r)); }
+            }
+        }
         let mut run = |name: String, f: Box<dyn FnOnce() -> bool + Send>, outs: &mut Vec<String>| {
             if hung { outs.push(format!("{}=skip", name)); return; }
             let r = timed(f);
